@@ -182,6 +182,14 @@ func main() {
 		// the minimised case must fail the same way when replayed from its file by fresh
 		// simulated processes; if it does not, it is harness trouble, never a verdict
 		rep, ident, _, rerr := sim.ReplayFile(path, bins)
+		statistical := false
+		if rerr == nil && !rep {
+			// not deterministic: a source the simulator does not own (goroutine, address order)?
+			for a := 0; a < 12 && !rep; a++ {
+				rep, _, _, rerr = sim.ReplayFile(path, bins)
+			}
+			statistical = rep
+		}
 		if rerr != nil || !rep {
 			fmt.Fprintf(os.Stderr, "simcheck: violation %s did not reproduce from its replay file %s (err=%v): not reported\n", v.Signature, path, rerr)
 			unreproducible++
@@ -190,6 +198,9 @@ func main() {
 		}
 		fmt.Printf("violation: %s\n  %s\n", v.Signature, v.Detail)
 		fmt.Printf("  replay check: reproduced=%v identical_execution=%v\n", rep, ident)
+		if statistical {
+			fmt.Printf("  NOTE: this violation reproduces only in some replays of the same file: the difference comes from a source the simulator does not control (goroutine scheduling, address order, real clock); the replay shows it statistically\n")
+		}
 		fmt.Printf("VIOLATION property=%s replay=%s\n", id, path)
 	}
 	wall := time.Since(start).Seconds()
